@@ -379,11 +379,10 @@ def segLimitCodeA (p : Props) (codeSegSize : Nat) : Nat :=
 
 def codeAdrIntTypeA (p : Props) (codeSegSize : Nat) : Nat := getSmallestUIntType (segLimitCodeA p codeSegSize)
 
-/-- `CutAdr` with the `SignMask` / `ORMask` / `SegLimits[SegCode]` of the selected address unit -/
-def cutAdrA (p : Props) (codeSegSize : Nat) (adr : Int) : Int :=
-  let size : Int := (segLimitCodeA p codeSegSize : Int) + 1
-  let signMask : Int := size / 2
-  if adr / signMask % 2 ≠ 0 then adr % size - size else adr % size
+/-- `CutAdr` works on WORD distances: since the repair of `SwitchTo_AVR` its `SignMask` / `ORMask` come from the size in words
+in both modes (`WordLimit = SegLimits[SegCode] >> (CodeSegSize ? 0 : 1)`, `Adr & ~ORMask` in the non-negative branch), so the
+CPU argument does not change it (before the repair the doubled limit was used in byte mode and `WRAPMODE ON` never wrapped there) -/
+def cutAdrA (p : Props) (_codeSegSize : Nat) (adr : Int) : Int := cutAdr p adr
 
 /-- `GetWordCodeAddress`: evaluate as `CodeAdrIntType`; in byte mode `Result & 1` ⇒ `ErrNum_NotAligned`, else `Result >>= 1` -/
 def getWordCodeAddressA (x : CtxA) (a : Int) : Except Err Int :=
